@@ -222,6 +222,17 @@ Section Deco.
   Definition annots_after (k : cls) (attrs : list (name * aspec)) : list name :=
     map fst (annots k) ++ filter (fun a => negb (mem a (annots k))) (map fst attrs).
 
+  (* the constructor is built for every class (get_methods_for_spec_class): its
+     signature is (self, <key>, *, <attributes...>, **<overflow>); inspect.Signature
+     refuses a name used twice (ValueError) *)
+  Definition ctor_clash (c : cfg) : bool :=
+    match active (c_key c), active (c_overflow c) with
+    | Some k, Some o => String.eqb k o || String.eqb k "self" || String.eqb o "self"
+    | Some k, None => String.eqb k "self"
+    | None, Some o => String.eqb o "self"
+    | None, None => false
+    end.
+
   Definition decorate_with (resolver : list name -> list (name * aspec) -> res (list (name * aspec)))
              (c : cfg) (k : cls) : res deco :=
     if existsb is_private (map fst (dattrs c)) then Err ValueErr
@@ -230,6 +241,7 @@ Section Deco.
       match resolver (map fst a1) a1 with
       | Err e => Err e
       | Ok a2 =>
+          if ctor_clash c then Err ValueErr else
           let d0 := lift_body a1 (body k) in
           let d1 := if mem "__annotations__" d0 then d0 else dset "__annotations__" EMeta d0 in
           let d2 := dset "__dataclass_fields__" EMeta (dset "__spec_class__" EMeta d1) in
